@@ -39,7 +39,7 @@ def run(ctx):
         c = d["c"]
         pred["%s|%s|%s" % (c["b"], c["src"], c["variant"])] = (c, d["pred"])
     obs = os.path.join(ctx.scratch, "obs.ndjson")
-    reps = 20 if quick else 120
+    reps = 20 if quick else 500
     s = V.harness(ctx, ["pg-cells", "-in", cells, "-out", obs, "-seed", ctx.seed, "-reps", reps, "-workers", V.NCPU])
     ctx.say("cells: %d emitted, %d executions (%d distinct cells); html %d, json %d; payload reached the page in %d; %d turned away by a gate" % (
         n, s["executed"], s["distinct"], s["html_structure_evaluations"], s["json_evaluations"], s["payload_reached_page"], s["rerouted_by_gate"]))
